@@ -1,10 +1,301 @@
-//! runs suites (stub)
-pub fn run_case(_f: &[&str]) -> String {
-    "UNIMPLEMENTED".to_string()
+//! RUN / MULTI suites: the whole pipeline on source text, on either store, with a scripted recording host
+//! and a dynamic stack-depth monitor.
+//!  RUN   \t id \t store \t <escaped source> \t <input term | -> \t <host>
+//!  MULTI \t id \t store \t <host> \t item…        item = `b:<escaped source>` (build) | `r:<k>` (run program k from its entry)
+//!  host  = `-` (no callbacks) | `d<0|1>a<0|1>[;name=int]*`   (defer mode, apply mode, resolvable identifiers)
+//! Result of RUN: lexerr | parseerr | builderr | runerr@<step> <type> | steplimit | ok <value> steps=.. regs=.. vals=.. frames=.. depth=<ok|…> log=..
+use crate::esc::unescape;
+use crate::store::{BasicStore, Host, SimpleStore, Store};
+use crate::values::{build as build_value, parse_term, render};
+use garnish_lang_compiler::build::build;
+use garnish_lang_compiler::lex::lex;
+use garnish_lang_compiler::parse::parse;
+use garnish_lang_runtime::{execute_current_instruction, SimpleRuntimeState};
+use garnish_lang_simple_data::symbol_value;
+use garnish_lang_traits::Instruction;
+use std::collections::HashMap;
+
+pub const STEP_LIMIT: usize = 5000;
+
+pub fn parse_host(spec: &str) -> Option<Host> {
+    if spec == "-" {
+        return None;
+    }
+    let mut h = Host::default();
+    for (i, part) in spec.split(';').enumerate() {
+        if i == 0 {
+            let cs: Vec<char> = part.chars().collect();
+            // d<0|1>a<0|1>
+            if cs.len() >= 4 {
+                h.defer_mode = if cs[1] == '1' { 1 } else { 0 };
+                h.apply_mode = if cs[3] == '1' { 1 } else { 0 };
+            }
+        } else if let Some((name, v)) = part.split_once('=') {
+            if let Ok(n) = v.parse::<i32>() {
+                h.resolve.push((symbol_value(name), n));
+            }
+        }
+    }
+    Some(h)
 }
-pub fn prog_case(_f: &[&str]) -> String {
-    "UNIMPLEMENTED".to_string()
+
+pub struct Built {
+    pub entry_jump: usize,
+    pub meta_len: usize,
 }
-pub fn multi_case(_f: &[&str]) -> String {
-    "UNIMPLEMENTED".to_string()
+
+pub fn compile_into<D: Store>(d: &mut D, src: &str) -> Result<Built, &'static str> {
+    let tokens = lex(src).map_err(|_| "lexerr")?;
+    let parsed = parse(&tokens).map_err(|_| "parseerr")?;
+    let bd = build(parsed.get_root(), parsed.get_nodes().clone(), d).map_err(|_| "builderr")?;
+    Ok(Built { entry_jump: *bd.jump_index(), meta_len: bd.instruction_metadata().len() })
+}
+
+pub struct RunOut {
+    pub line: String,
+}
+
+/// execute from the entry of `entry_jump` with `input` as the initial input value
+pub fn execute<D: Store>(d: &mut D, entry_jump: usize, input: usize) -> String {
+    let start = match d.get_from_jump_table(entry_jump) {
+        Some(s) => s,
+        None => return "runerr@0 no-entry".to_string(),
+    };
+    if d.set_instruction_cursor(start).is_err() {
+        return "runerr@0 cursor".to_string();
+    }
+    let regs0 = d.operands().len();
+    let vals0 = d.value_stack_len();
+    let frames0 = d.frame_depth();
+    if d.push_value_stack(input).is_err() {
+        return "runerr@0 push-input".to_string();
+    }
+    // dynamic depth monitor: operands relative to the base of the current frame, per instruction
+    let mut bases: Vec<usize> = vec![regs0];
+    let mut seen: HashMap<usize, i64> = HashMap::new();
+    let mut depth_note = String::from("ok");
+    let mut steps = 0usize;
+    loop {
+        let pc = d.get_instruction_cursor();
+        let instr = d.get_instruction(pc);
+        let rel = d.operands().len() as i64 - *bases.last().unwrap_or(&0) as i64;
+        if depth_note == "ok" {
+            if rel < 0 {
+                depth_note = format!("negative@{}", pc);
+            } else if let Some(prev) = seen.get(&pc) {
+                if *prev != rel {
+                    depth_note = format!("conflict@{}:{}!={}", pc, prev, rel);
+                }
+            } else {
+                seen.insert(pc, rel);
+            }
+            if let Some((Instruction::EndExpression, _)) = instr {
+                if rel != 1 {
+                    depth_note = format!("end@{}:{}", pc, rel);
+                }
+            }
+        }
+        let f_before = d.frame_depth();
+        let ops_before = d.operands().len();
+        let res = execute_current_instruction(d);
+        steps += 1;
+        match res {
+            Err(e) => {
+                let msg = match std::error::Error::source(&e) {
+                    Some(s) => format!("{}", s),
+                    None => e.get_message().clone(),
+                };
+                let msg: String = msg.chars().filter(|c| *c != '\n' && *c != '\t').take(120).collect();
+                return format!("runerr@{} {:?} depth={} log={} msg={}", steps, e.get_type(), depth_note, d.host_log().join(";"), msg);
+            }
+            Ok(info) => {
+                let f_after = d.frame_depth();
+                if f_after > f_before {
+                    // apply entered an expression: both operands were consumed before the frame was pushed
+                    let _ = ops_before;
+                    bases.push(d.operands().len());
+                } else if f_after < f_before {
+                    bases.pop();
+                }
+                if info.get_state() == SimpleRuntimeState::End {
+                    break;
+                }
+            }
+        }
+        if steps >= STEP_LIMIT {
+            return format!("steplimit depth={} log={}", depth_note, d.host_log().join(";"));
+        }
+    }
+    let value = match d.get_current_value() {
+        Some(v) => render(d, v, 0),
+        None => "<no-value>".to_string(),
+    };
+    format!(
+        "ok {} steps={} regs={} vals={} frames={} depth={} log={}",
+        value,
+        steps,
+        d.operands().len() as i64 - regs0 as i64,
+        d.value_stack_len() as i64 - vals0 as i64,
+        d.frame_depth() as i64 - frames0 as i64,
+        depth_note,
+        d.host_log().join(";")
+    )
+}
+
+fn input_of<D: Store>(d: &mut D, term: &str) -> Result<usize, String> {
+    if term == "-" {
+        return d.add_unit().map_err(|e| e.to_string());
+    }
+    let t = parse_term(term)?;
+    build_value(d, &t)
+}
+
+fn run_on<D: Store>(f: &[&str]) -> String {
+    let src = unescape(f[3]);
+    let mut d = D::create(parse_host(f[5]));
+    let b = match compile_into(&mut d, &src) {
+        Ok(b) => b,
+        Err(e) => return e.to_string(),
+    };
+    let input = match input_of(&mut d, f[4]) {
+        Ok(a) => a,
+        Err(e) => return format!("SETUP-ERR {}", e),
+    };
+    execute(&mut d, b.entry_jump, input)
+}
+
+pub fn run_case(f: &[&str]) -> String {
+    if f.len() < 6 {
+        return "BAD-CASE fields".into();
+    }
+    match f[2] {
+        "simple" => run_on::<SimpleStore>(f),
+        "basic" => run_on::<BasicStore>(f),
+        s => format!("BAD-CASE store {}", s),
+    }
+}
+
+/// PROG: same as RUN (the AST travels in an extra field that only the Lean side reads)
+pub fn prog_case(f: &[&str]) -> String {
+    run_case(f)
+}
+
+fn dump_program<D: Store>(d: &D) -> String {
+    let mut s = String::new();
+    let n = d.get_instruction_len();
+    for i in 0..n {
+        if let Some((ins, op)) = d.get_instruction(i) {
+            s.push_str(&format!("{:?}", ins));
+            if let Some(o) = op {
+                match ins {
+                    Instruction::Put | Instruction::Resolve => s.push_str(&format!(":{}", render(d, o, 0))),
+                    _ => s.push_str(&format!(":{}", o)),
+                }
+            }
+            s.push(',');
+        }
+    }
+    s.push_str(" J=");
+    for j in 0..d.get_jump_table_len() {
+        s.push_str(&format!("{},", d.get_from_jump_table(j).unwrap_or(usize::MAX)));
+    }
+    s
+}
+
+fn multi_on<D: Store>(f: &[&str]) -> String {
+    let mut d = D::create(parse_host(f[3]));
+    let mut entries: Vec<usize> = vec![];
+    let mut out: Vec<String> = vec![];
+    let mut prev_dump = String::new();
+    let mut prev_il = 0usize;
+    let mut prev_jl = 0usize;
+    for item in &f[4..] {
+        if let Some(src) = item.strip_prefix("b:") {
+            let src = unescape(src);
+            let il = d.get_instruction_len();
+            let jl = d.get_jump_table_len();
+            // earlier programs must stay exactly as they were: compare the prefix of the dump
+            let before: Vec<(Instruction, Option<String>)> = (0..il)
+                .filter_map(|i| d.get_instruction(i).map(|(ins, op)| (ins, op.map(|o| match ins {
+                    Instruction::Put | Instruction::Resolve => render(&d, o, 0),
+                    _ => o.to_string(),
+                }))))
+                .collect();
+            let jbefore: Vec<Option<usize>> = (0..jl).map(|j| d.get_from_jump_table(j)).collect();
+            match compile_into(&mut d, &src) {
+                Err(e) => {
+                    out.push(format!("b:{}", e));
+                    entries.push(usize::MAX);
+                }
+                Ok(b) => {
+                    let after: Vec<(Instruction, Option<String>)> = (0..il)
+                        .filter_map(|i| d.get_instruction(i).map(|(ins, op)| (ins, op.map(|o| match ins {
+                            Instruction::Put | Instruction::Resolve => render(&d, o, 0),
+                            _ => o.to_string(),
+                        }))))
+                        .collect();
+                    let jafter: Vec<Option<usize>> = (0..jl).map(|j| d.get_from_jump_table(j)).collect();
+                    let undisturbed = before == after && jbefore == jafter;
+                    // own pieces only: every jump operand / expression value of the new instructions >= jl, targets >= il
+                    let mut own = true;
+                    for i in il..d.get_instruction_len() {
+                        if let Some((ins, Some(o))) = d.get_instruction(i) {
+                            match ins {
+                                Instruction::JumpTo | Instruction::JumpIfTrue | Instruction::JumpIfFalse | Instruction::And | Instruction::Or | Instruction::Reapply => {
+                                    if o < jl {
+                                        own = false;
+                                    }
+                                }
+                                Instruction::Put => {
+                                    if let Ok(garnish_lang_traits::GarnishDataType::Expression) = d.get_data_type(o) {
+                                        if let Ok(e) = d.get_expression(o) {
+                                            if e < jl {
+                                                own = false;
+                                            }
+                                        }
+                                    }
+                                }
+                                _ => {}
+                            }
+                        }
+                    }
+                    for j in jl..d.get_jump_table_len() {
+                        match d.get_from_jump_table(j) {
+                            Some(t) if t >= il && t <= d.get_instruction_len() => {}
+                            _ => own = false,
+                        }
+                    }
+                    out.push(format!("b:ok entry={} undisturbed={} own={}", b.entry_jump - jl, undisturbed, own));
+                    entries.push(b.entry_jump);
+                }
+            }
+            prev_il = il;
+            prev_jl = jl;
+        } else if let Some(k) = item.strip_prefix("r:") {
+            let k: usize = k.parse().unwrap_or(usize::MAX);
+            match entries.get(k) {
+                Some(e) if *e != usize::MAX => {
+                    let input = d.add_unit().unwrap_or(0);
+                    let r = execute(&mut d, *e, input);
+                    // keep only value + balance
+                    out.push(format!("r{}:{}", k, r));
+                }
+                _ => out.push(format!("r{}:none", k)),
+            }
+        }
+    }
+    let _ = (prev_il, prev_jl, &mut prev_dump);
+    let _ = dump_program(&d);
+    out.join(" | ")
+}
+
+pub fn multi_case(f: &[&str]) -> String {
+    if f.len() < 5 {
+        return "BAD-CASE fields".into();
+    }
+    match f[2] {
+        "simple" => multi_on::<SimpleStore>(f),
+        "basic" => multi_on::<BasicStore>(f),
+        s => format!("BAD-CASE store {}", s),
+    }
 }
